@@ -19,9 +19,9 @@ Texts == {n.text : n \in ToSet(S.nodes)}
 Count(seq, e, d) == Cardinality({i \in DOMAIN seq : seq[i].ent = e /\ seq[i].day = d})
 \* effects of a request, as a set of booleans over the reopened store (day 1 = the day of the workload)
 Effects(r) ==
-    CASE r.req = "create2" -> {r.t1 \in Texts, r.t2 \in Texts}
+    CASE r.req \in {"create2", "ingest2"} -> {r.t1 \in Texts, r.t2 \in Texts}
       [] r.req = "update" -> {r.text \in Texts, r.row \notin Texts}
-      [] r.req = "delete" -> {r.row \notin Texts, Count(S.ntombs, "A", 1) >= 1}
+      [] r.req \in {"delete", "ingestdel"} -> {r.row \notin Texts, Count(S.ntombs, "A", 1) >= 1}
       [] r.req = "unref" -> {S.edges = <<>>, Len(S.etombs) = 1}
       [] OTHER -> {}
 AckOf(r) == LET as == {a \in ToSet(Ev.acks) : a.n = r.n} IN IF as = {} THEN "none" ELSE (CHOOSE a \in as : TRUE).res
